@@ -19,8 +19,8 @@ import (
 	"fmt"
 	"net/http"
 	"net/http/httptest"
+	"reflect"
 	"regexp"
-	"sort"
 	"strconv"
 	"strings"
 	"sync"
@@ -51,6 +51,7 @@ import (
 
 	proxyv1alpha1 "github.com/kubewharf/kubegateway/pkg/apis/proxy/v1alpha1"
 	"github.com/kubewharf/kubegateway/pkg/clusters"
+	"github.com/kubewharf/kubegateway/pkg/gateway/controllers"
 	tokenwebhook "github.com/kubewharf/kubegateway/pkg/gateway/authentication/token/webhook"
 	sarwebhook "github.com/kubewharf/kubegateway/pkg/gateway/authorization/webhook"
 	"github.com/kubewharf/kubegateway/pkg/gateway/endpoints/filters"
@@ -174,6 +175,9 @@ type c12Rig struct {
 	tidx    map[string]int
 	sidx    map[string]int
 	calls   []callObs
+	ctl     *controllers.UpstreamClusterController // the real controller; r.mgr is the same object as clusters.Manager
+	names   map[string][]string                    // cluster -> extra server names (.spec.secureServing.serverNames) of its object
+	all     []*clusters.ClusterInfo                // every ClusterInfo ever created (stopped at the end)
 	owner   map[string]string   // server -> cluster whose server list it is in ("" = none)
 	lists   map[string][]string // cluster -> current server list
 	dis     map[string]bool     // server -> Disabled flag in its cluster's object
@@ -322,6 +326,7 @@ func (r *c12Rig) specFor(name string) *proxyv1alpha1.UpstreamCluster {
 			ClientConfig: proxyv1alpha1.ClientConfig{Insecure: true, BearerToken: []byte("gw")},
 		},
 	}
+	obj.Spec.SecureServing.ServerNames = append([]string{}, r.names[name]...)
 	for _, srv := range r.lists[name] {
 		d := r.dis[srv]
 		obj.Spec.Servers = append(obj.Spec.Servers, proxyv1alpha1.UpstreamClusterServer{Endpoint: c12URL(srv), Disabled: &d})
@@ -337,6 +342,7 @@ func (r *c12Rig) newCluster(name string) *clusters.ClusterInfo {
 	}
 	info, err := clusters.CreateClusterInfo(r.specFor(name), nil, "", nil)
 	must(err)
+	r.all = append(r.all, info)
 	for _, srv := range r.lists[name] {
 		r.attachFake(info, srv)
 	}
@@ -445,28 +451,24 @@ func (r *c12Rig) removeEp(c, srv string) {
 	}
 }
 
-func (r *c12Rig) clusterNames() []string {
-	set := map[string]bool{}
-	for _, cs := range r.cfg.Servers {
-		set[cs.C] = true
+// create: a new ClusterInfo for c's object (current server list and server names), registered the
+// way the controller does for a new UpstreamCluster: AddOrUpdateForServerNames(nil, info).
+func (r *c12Rig) create(c string) {
+	info := r.newCluster(c)
+	if err := r.ctl.AddOrUpdateForServerNames(nil, info); err != nil {
+		info.Stop()
+		panic("create " + c + ": " + err.Error())
 	}
-	for _, kv := range r.cfg.Reg {
-		set[kv[1]] = true
-	}
-	out := []string{}
-	for c := range set {
-		out = append(out, c)
-	}
-	sort.Strings(out)
-	return out
+	r.infos[c] = info
 }
 
 func newC12Rig(c *c12Case) *c12Rig {
-	r := &c12Rig{cfg: c.Cfg, mgr: clusters.NewManager(), infos: map[string]*clusters.ClusterInfo{},
+	ctl := controllers.VerifC12NewController()
+	r := &c12Rig{cfg: c.Cfg, ctl: ctl, mgr: ctl, infos: map[string]*clusters.ClusterInfo{},
 		tscript: c.TScript, sscript: c.SScript, tidx: map[string]int{}, sidx: map[string]int{}}
 	tokencache.VerifNow = r.clock
 	utilcache.VerifNow = r.clock
-	r.owner, r.lists, r.dis = map[string]string{}, map[string][]string{}, map[string]bool{}
+	r.owner, r.lists, r.dis, r.names = map[string]string{}, map[string][]string{}, map[string]bool{}, map[string][]string{}
 	for _, cs := range c.Cfg.Servers {
 		for _, srv := range cs.S {
 			if r.owner[srv] != "" {
@@ -476,13 +478,31 @@ func newC12Rig(c *c12Case) *c12Rig {
 			r.lists[cs.C] = append(r.lists[cs.C], srv)
 		}
 	}
-	for _, name := range r.clusterNames() {
-		r.infos[name] = r.newCluster(name)
-	}
+	// initial registry: a cluster exists iff its own name is registered to it; the other names
+	// registered to it are the server names of its object
+	reg := map[string]string{}
+	order := []string{}
 	for _, kv := range c.Cfg.Reg {
-		r.mgr.AddWithKey(kv[0], r.infos[kv[1]])
+		if _, dup := reg[kv[0]]; !dup {
+			reg[kv[0]] = kv[1]
+			order = append(order, kv[0])
+		}
 	}
-	prov := &c12Provider{inner: r.mgr} // the real manager; only tags the clientsets it hands out
+	for _, k := range order {
+		cl := reg[k]
+		if reg[cl] != cl {
+			panic("invalid case: name " + k + " registered to a cluster that does not exist: " + cl)
+		}
+		if k != cl {
+			r.names[cl] = append(r.names[cl], k)
+		}
+	}
+	for _, k := range order {
+		if reg[k] == k {
+			r.create(k)
+		}
+	}
+	prov := &c12Provider{inner: r.mgr} // the real controller / manager; only tags the clientsets it hands out
 	r.tok = tokenwebhook.NewMultiClusterTokenReviewAuthenticator(prov, time.Duration(c.Cfg.STTL), time.Duration(c.Cfg.FTTL), authenticator.Audiences{"gw"})
 	// the wiring of pkg/gateway/proxy/authenticator/config.go around the token authenticator
 	r.req = group.NewAuthenticatedGroupAdder(unionauth.New(bearertoken.New(r.tok), websocket.NewProtocolAuthenticator(r.tok)))
@@ -494,7 +514,7 @@ func newC12Rig(c *c12Case) *c12Rig {
 }
 
 func (r *c12Rig) stop() {
-	for _, info := range r.infos {
+	for _, info := range r.all {
 		info.Stop()
 	}
 	tokencache.VerifNow = nil
@@ -572,53 +592,118 @@ func (a *c12Attrs) record() *authorizer.AttributesRecord {
 	}
 }
 
-// restart: the ClusterInfo of c is deleted with stop (every key it is registered under), the
-// per-host caches created under it are dropped by their watcher goroutines, a new ClusterInfo
-// with fresh endpoints is registered under the same keys.
-func (r *c12Rig) restart(c string) string {
+// remove: c's UpstreamCluster object is deleted — the controller's DeleteForServerNames (which must
+// unregister every server name of c and stop its ClusterInfo); then the per-host caches created
+// under that ClusterInfo must be dropped by their watcher goroutines.
+func (r *c12Rig) remove(c string) string {
 	old := r.infos[c]
 	if old == nil {
 		return ""
 	}
+	// caches that must go: keyed by this ClusterInfo, or (host-only keys) of a host it serves now
 	watched := map[string]bool{}
 	for _, h := range append(tokenwebhook.VerifCacheHosts(r.tok), sarwebhook.VerifCacheHosts(r.authz)...) {
 		if ci, ok := r.mgr.Get(h); ok && ci == old {
 			watched[h] = true
 		}
 	}
-	keys := []string{}
-	for _, kv := range r.cfg.Reg {
-		if kv[1] == c {
-			keys = append(keys, kv[0])
-		}
-	}
-	for _, k := range keys {
-		r.mgr.DeleteWithStop(k)
-	}
-	old.Stop()
+	ptr := reflect.ValueOf(old).Pointer()
+	r.ctl.DeleteForServerNames(c)
+	r.infos[c] = nil
 	note := ""
-	deadline := time.Now().Add(2 * time.Second)
-	for {
-		left := 0
-		for _, h := range append(tokenwebhook.VerifCacheHosts(r.tok), sarwebhook.VerifCacheHosts(r.authz)...) {
-			if watched[h] {
-				left++
+	if _, still := r.mgr.Get(c); still {
+		note = "cluster-still-registered"
+	} else if old.Context().Err() == nil {
+		note = "cluster-not-stopped"
+	}
+	left := func() int {
+		n := 0
+		for _, k := range tokenwebhook.VerifCacheKeys(r.tok) {
+			if (k.Cluster != 0 && k.Cluster == ptr) || (k.Cluster == 0 && watched[k.Host]) {
+				n++
 			}
 		}
-		if left == 0 {
-			break
+		for _, k := range sarwebhook.VerifCacheKeys(r.authz) {
+			if (k.Cluster != 0 && k.Cluster == ptr) || (k.Cluster == 0 && watched[k.Host]) {
+				n++
+			}
 		}
+		return n
+	}
+	deadline := time.Now().Add(3 * time.Second)
+	if note != "" {
+		deadline = time.Now().Add(50 * time.Millisecond)
+	}
+	for left() > 0 {
 		if time.Now().After(deadline) {
-			note = "caches-not-dropped"
+			if note == "" {
+				note = "caches-not-dropped"
+			}
 			break
 		}
 		time.Sleep(time.Millisecond)
 	}
-	r.infos[c] = r.newCluster(c)
-	for _, k := range keys {
-		r.mgr.AddWithKey(k, r.infos[c])
-	}
 	return note
+}
+
+// restart: c's object is deleted and created again with the same server names and server list.
+func (r *c12Rig) restart(c string) string {
+	if r.infos[c] == nil {
+		return ""
+	}
+	note := r.remove(c)
+	r.create(c)
+	return note
+}
+
+// name / unname: c's object gains / loses a server name; the controller's update path for an
+// existing cluster: ClusterInfo.Sync(object) then AddOrUpdateForServerNames(old names, info).
+func (r *c12Rig) name(c, h string) {
+	k := strings.ToLower(h)
+	info := r.infos[c]
+	if info == nil {
+		return
+	}
+	if _, taken := r.mgr.Get(k); taken {
+		return // already a name of c, or the update would be rejected (checkServerNameConflict)
+	}
+	old := info.LoadServerNames()
+	r.names[c] = append(r.names[c], k)
+	must(info.Sync(r.specFor(c)))
+	must(r.ctl.AddOrUpdateForServerNames(old, info))
+}
+
+func (r *c12Rig) unname(c, h string) {
+	k := strings.ToLower(h)
+	info := r.infos[c]
+	if info == nil || k == c {
+		return
+	}
+	if ci, ok := r.mgr.Get(k); !ok || ci != info {
+		return
+	}
+	old := info.LoadServerNames()
+	kept := []string{}
+	for _, x := range r.names[c] {
+		if x != k {
+			kept = append(kept, x)
+		}
+	}
+	r.names[c] = kept
+	must(info.Sync(r.specFor(c)))
+	must(r.ctl.AddOrUpdateForServerNames(old, info))
+}
+
+// recreate: a deleted cluster's object is created again (no extra server names).
+func (r *c12Rig) recreate(c string) {
+	if r.infos[c] != nil {
+		return
+	}
+	if _, taken := r.mgr.Get(c); taken {
+		return // its name is a server name of another cluster now: the controller rejects the new object
+	}
+	r.names[c] = nil
+	r.create(c)
 }
 
 // recAuthorizer passes every call through to the real authorizer and keeps what it saw.
@@ -972,6 +1057,14 @@ func runC12(raw json.RawMessage) interface{} {
 			r.removeEp(op.C, op.Srv)
 		case "restart":
 			st.Note = r.restart(op.C)
+		case "delete":
+			st.Note = r.remove(op.C)
+		case "recreate":
+			r.recreate(op.C)
+		case "name":
+			r.name(op.C, *op.Host)
+		case "unname":
+			r.unname(op.C, *op.Host)
 		case "evictt":
 			tokenwebhook.VerifEvict(r.tok, *op.Host, op.Tok)
 		case "evicts":
